@@ -34,6 +34,7 @@ type c11Scenario struct {
 	Headers [][2]string       `json:"headers,omitempty"`
 	Query   [][2]string       `json:"query,omitempty"`
 	Exprs   map[string]string `json:"exprs,omitempty"`
+	DirFiles int              `json:"files_in_listed_directory,omitempty"`
 	Orders  int               `json:"orders"`
 	Sorted  string            `json:"outcome_sorted_order,omitempty"`
 	Other   string            `json:"outcome_other_order,omitempty"`
@@ -410,6 +411,21 @@ func (g *zgen) moduleProgram(sc *c11Scenario) {
 	for i := 0; i < 1+g.t.Draw(3); i++ {
 		lines = append(lines, fmt.Sprintf("（显示：（%s））", pick(g.t, c11Funcs)))
 	}
+	// a directory listing is external data too: the order in which the file system hands the
+	// entries out (drawn by the simulated disk) is nothing the result may depend on
+	if g.t.Draw(4) == 3 {
+		sc.DirFiles = []int{2, 7, 1023, 1024, 1025, 2600}[g.t.Draw(6)]
+		if !strings.Contains(strings.Join(lines, "\n"), "导入《@文件》") {
+			lines = append([]string{"导入《@文件》"}, lines...)
+		}
+		// (right after the imports: the calls drawn above often end the program with an error)
+		at := 0
+		for at < len(lines) && strings.HasPrefix(lines[at], "导入") {
+			at++
+		}
+		listing := []string{"", "令列 = （读取目录：“/proj/数据”）", "（显示：列 之 长度、列 之 首项、列 之 末项）", "（显示：列）"}
+		lines = append(lines[:at], append(listing, lines[at:]...)...)
+	}
 	sc.Main = strings.Join(lines, "\n") + "\n"
 }
 
@@ -483,6 +499,12 @@ func c11Exec(w *zsim.World, sc *c11Scenario) string {
 		d.Put("/proj/main.zn", []byte(sc.Main))
 		for n, src := range sc.Modules {
 			d.Put("/proj/"+n+".zn", []byte(src))
+		}
+		if sc.DirFiles > 0 {
+			d.MkdirAll("/proj/数据")
+			for i := 0; i < sc.DirFiles; i++ {
+				d.Put(fmt.Sprintf("/proj/数据/件%05d.txt", (i*7919)%100003), []byte("x"))
+			}
 		}
 		return runFile(w, newInterp(sharedLibs()...), "/proj/main.zn", nil).String()
 	case "http":
